@@ -369,7 +369,8 @@ Lemma pass1 depth s :
     flush depth (step depth s OHbTick) =
       mkS w1 (mkR (r_base r1) (r_known r1) (w_hbc (sw s)) anc' (r_asm r1) (r_got r1))
           (extra ++ (if isnil nfs then [] else [nfs]) ++
-           [[SAck (r_base r1) (filter (fun sn => negb (fhas sn (r_asm r1))) ms) (r_anc r1)]])
+           [[SAck (r_base r1) (filter (fun sn => negb (fhas sn (r_asm r1))) ms)
+                  (r_anc r1 + Z.of_nat (length (filter (fun sn => fhas sn (r_asm r1)) ms)))]])
     /\ (forall m, In m nfs -> exists sn f0 bits k bv,
           m = SNackFrag sn f0 bits k /\ In sn ms /\ fget sn (r_asm r1) = Some bv
           /\ In f0 (bidx false 1 bv) /\ bits = filter (fun f => f <=? f0 + 255) (bidx false 1 bv)
@@ -590,7 +591,8 @@ Proof.
       + left. split; [|reflexivity]. apply filter_In. split; [exact Hms|].
         unfold fhas. rewrite G. reflexivity. }
   destruct Item as (f & Hf & Hnh & Req).
-  destruct (pass2 depth w1 r2 extra nfs m bits (r_anc r1) f D) as (w3 & E3 & I3 & N3 & Rp & ReqB & ReqA);
+  destruct (pass2 depth w1 r2 extra nfs m bits
+              (r_anc r1 + Z.of_nat (length (filter (fun sn => fhas sn (r_asm r1)) ms))) f D) as (w3 & E3 & I3 & N3 & Rp & ReqB & ReqA);
     [exact I2 | exact T | exact Kn | reflexivity | exact Hm |].
   unfold dgram in *. rewrite E2, E3. rewrite (flush_nil depth (mkS w3 r2 (@nil (list sub)))) by reflexivity.
   set (s3 := mkS w3 r2 (@nil (list sub))) in *.
